@@ -44,7 +44,7 @@ META = {
     ),
     "C14": dict(
         category="exploration",
-        text="The C13 job one level up: each simulated rank owns a real SpectDataLoader / LangDataLoader / ContextWindowDataLoader over a generated data directory in the simulated file system (or a bare BucketBatchSampler with arbitrary maps); epochs, abandoned epochs (k batches, then the iterator is dropped), rank restarts, epoch jumps and RNG perturbations are interleaved by the seed; len() is also asked mid-epoch, and a quarter of the scenarios consume epochs by taking exactly len(loader) batches. After every epoch: len() vs batches yielded, every batch in one bucket / in sampler order / of the bucket's size with short batches only at the tail, exactly-once delivery (or documented drops), the bucket map is a partition into length classes with documented sizes, lossless collation against an independent float64 reference pipeline (mvn, deltas, context windows, sos/eos), padding values, ids on rows; over the history: identical batches for identical (seed, epoch).",
+        text="The C13 job one level up: each simulated rank owns a real SpectDataLoader / LangDataLoader / ContextWindowDataLoader over a generated data directory in the simulated file system (or a bare BucketBatchSampler with arbitrary maps), with data parameters inside or beside the loader parameters, optionally restricted to a subset of the ids and given normalisation statistics; epochs, abandoned epochs (k batches, then the iterator is dropped), rank restarts, epoch jumps and RNG perturbations are interleaved by the seed; len() is also asked mid-epoch, and a quarter of the scenarios consume epochs by taking exactly len(loader) batches. After every epoch: len() vs batches yielded, every batch in one bucket / in sampler order / of the bucket's size with short batches only at the tail, exactly-once delivery (or documented drops), the bucket map is a partition into length classes with documented sizes, lossless collation against an independent float64 reference pipeline (mvn, deltas, context windows, sos/eos), padding values, ids on rows; over the history: identical batches for identical (seed, epoch).",
         design="DESIGN.md section 4 (C14)",
         note="Trusted: SimFS/SimDist stubs; num_workers=0; rows are mapped to utterances by content when ids are suppressed; the per-rank sampler order is taken from the sampler's public API (its correctness is C13); reference transforms in props/corpus.py.",
         technique="deterministic simulation: simulated ranks and file system, seeded epoch/restart/jump histories, per-epoch invariants + reproducibility history oracle",
